@@ -52,7 +52,9 @@ def cases(draw, methods=METHODS):
     elif method == "lsq_poly":
         order = draw(st.integers(1, min(5, nv - 1)))
     else:
-        order = draw(st.integers(2, nv - 1))
+        # node-based: every ceil(nv/order)-th volume; orders beyond nv use all volumes (piecewise methods only: lagrange
+        # and krogh through all of 9-12 nodes are numerically unstable, as cij's own comments say)
+        order = draw(st.integers(2, nv + 3 if method in ("pchip", "akima", "hermite") else nv - 1))
     family = draw(st.sampled_from(["power", "poly", "generic"]))
     nq = draw(st.integers(1, 4))
     na = draw(st.integers(1, 3))
